@@ -9,6 +9,7 @@ import (
 	"math/rand"
 	"strings"
 	"sync"
+	"sync/atomic"
 	"testing"
 	"time"
 
@@ -130,7 +131,11 @@ func vfGenC10(r *rand.Rand, c int, maxSteps int, senders int) *vfC10Case {
 			cs.Steps = append(cs.Steps, vfC10Step{Op: "raw", Text: fmt.Sprintf(`<message id='%s' to='x@y'><body>raw &amp; %d</body></message>`, id, i)})
 			sent++
 		case k < 11:
-			cs.Steps = append(cs.Steps, vfC10Step{Op: "r"})
+			if r.Intn(2) == 0 {
+				cs.Steps = append(cs.Steps, vfC10Step{Op: "peer-r"})
+			} else {
+				cs.Steps = append(cs.Steps, vfC10Step{Op: "r"})
+			}
 		case k < 12:
 			cs.Steps = append(cs.Steps, vfC10Step{Op: "a", N: r.Intn(5)})
 		default:
@@ -167,8 +172,12 @@ func vfGenC10(r *rand.Rand, c int, maxSteps int, senders int) *vfC10Case {
 			}
 		}
 	}
-	// make sure every history ends with an acknowledgement
-	cs.Steps = append(cs.Steps, vfC10Step{Op: "ack", N: 1 + r.Intn(sent+1), Rel: "h<sent"})
+	// make sure every history ends with an acknowledgement - in a third of them with the connection dead for writes
+	if r.Intn(3) == 0 {
+		cs.Steps = append(cs.Steps, vfC10Step{Op: "msg", Text: fmt.Sprintf("o%d-last", c)}, vfC10Step{Op: "dead-then-ack", N: r.Intn(sent + 1), Rel: "h<sent"})
+	} else {
+		cs.Steps = append(cs.Steps, vfC10Step{Op: "ack", N: 1 + r.Intn(sent+1), Rel: "h<sent"})
+	}
 	return cs
 }
 
@@ -182,6 +191,7 @@ type vfC10Session struct {
 	acks  chan string
 	perr  error
 	mk    int
+	fc    *vfFaultConn
 }
 
 func vfC10Open() (*vfC10Session, error) {
@@ -238,6 +248,10 @@ func vfC10Open() (*vfC10Session, error) {
 		s.peer.Stop()
 		return nil, s.perr
 	}
+	// writes can be made to fail from a chosen moment on (only writers read this field after Connect)
+	xt := c.transport.(*XMPPTransport)
+	s.fc = &vfFaultConn{Conn: xt.conn}
+	xt.readWriter = newStreamLogger(s.fc, nil)
 	return s, nil
 }
 
@@ -308,6 +322,7 @@ func vfC10RunSequential(run *vfkit.Run, cs *vfC10Case) {
 	}
 	lastRel := "none"
 	nAcks := 0
+	inbound := 0 // stanzas the client has received (the markers)
 	for i, st := range cs.Steps {
 		where := fmt.Sprintf("step %d %s", i, st.Op)
 		switch st.Op {
@@ -337,6 +352,47 @@ func vfC10RunSequential(run *vfkit.Run, cs *vfC10Case) {
 				return
 			}
 			m.W = append(m.W, fmt.Sprintf(`<a xmlns="urn:xmpp:sm:3" h="%d"></a>`, st.N))
+		case "peer-r":
+			// the server asks: the client's answer goes on the wire, carries the inbound count, and is not held
+			s.mk++
+			mk := fmt.Sprintf("mk-%d", s.mk)
+			s.acks <- fmt.Sprintf(`<r xmlns="urn:xmpp:sm:3"/><message id="%s" from="peer"><body>m</body></message>`, mk)
+			if !vfWaitUntil(15*time.Second, func() bool {
+				for _, id := range s.obs.Handled() {
+					if id == mk {
+						return !vfRouterBusy(s.c.router)
+					}
+				}
+				return false
+			}) {
+				run.Inconclusive("settle-watchdog")
+				return
+			}
+			m.W = append(m.W, fmt.Sprintf(`<a xmlns="urn:xmpp:sm:3" h="%d"></a>`, inbound))
+			inbound++ // the marker
+		case "dead-then-ack":
+			// from now on every write fails; the acknowledgement that follows leaves stanzas unacknowledged, whose
+			// retransmission therefore fails: they must still be held
+			atomic.StoreInt32(&s.fc.failAll, 1)
+			if !s.ackAndSettle(st.N) {
+				run.Inconclusive("settle-watchdog")
+				return
+			}
+			var keep []string
+			for _, qi := range m.Q {
+				if qi+1 > st.N {
+					keep = append(keep, m.L[qi])
+				}
+			}
+			got, _ := vfQueueTexts(s.c)
+			if !vfSameStrs(got, keep) {
+				run.Violation("C10/held-list-wrong:retransmission-write-fails", fmt.Sprintf("step %d: writes fail, <a h=%d/>: queue holds %d %s, unacknowledged stanzas are %d %s", i, st.N, len(got), vfClipList(got), len(keep), vfClipList(keep)), cs)
+				return
+			}
+			run.Count("failed_retransmissions_checked", 1)
+			run.Count("steps_checked", int64(i+1))
+			run.Nontrivial(fmt.Sprintf("%v", cs.Steps))
+			return
 		case "ack":
 			heldBefore := len(m.Q)
 			sentBefore := len(m.L)
@@ -345,6 +401,7 @@ func vfC10RunSequential(run *vfkit.Run, cs *vfC10Case) {
 				return
 			}
 			m.ack(st.N)
+			inbound++ // the marker that follows the acknowledgement
 			nAcks++
 			lastRel = st.Rel
 			where = fmt.Sprintf("step %d ack h=%d (%s; %d stanzas on the session, %d held before)", i, st.N, st.Rel, sentBefore, heldBefore)
